@@ -438,6 +438,8 @@ OPS1 = ("ord", "touni")
 
 def case_ops(case):
     t = case.split()
+    if not t or t[0] not in ("mv", "uv") or len(t) < 4:
+        return []
     if t[0] == "mv":
         k = 4 + int(t[3])
         ar = {"add": 4, "sub": 4, "mul": 4, "addmul": 4, "submul": 4, "mulc": 4, "pow": 4, "shl": 4, "fromuni": 4,
@@ -457,12 +459,16 @@ def case_ops(case):
 
 def tag(case):
     t = case.split()
+    if not t or t[0] not in ("mv", "uv") or len(t) < 4:
+        return "malformed"
     ops = case_ops(case)
     return "%s:%s:%s" % (t[0], "Z" if t[1] == "0" else "Zm", ops[0][0] if ops else "none")
 
 
 def nontrivial(case):
     t = case.split()
+    if not t or t[0] not in ("mv", "uv") or len(t) < 4:
+        return False
     n = int(t[3]) if t[0] == "mv" else int(t[2])
     pool = t[4:4 + n] if t[0] == "mv" else t[3:3 + n]
     return any(("x" in p) or ("," in p) for p in pool) and len(case_ops(case)) >= 1
